@@ -504,6 +504,65 @@ def modelValidate (xenv : XEnv) (c : Shape) : Json → Except Err Inst
           (Gen.EventSerial.dictPrivate ++ Gen.EventSerial.stopPrivate)
   | _ => .error .notDict
 
+/-! ## `StopEvent.result`: the accessor a subclass may override
+
+`StopEvent.result` is `self._get_result()`; the base class returns the raw payload `_result`, and
+"This can be overridden by subclasses to return the desired result".  An override is a function
+of the instance (raw payload, typed fields, dynamic fields).  The serializers never call it: what
+goes on the wire is the raw payload (`dumpModel`), and `__init__(result=…)` stores the wire value
+back as the raw payload. -/
+
+/-- `sum(x for x in raw if type(x) is int)` -/
+def sumInts : List Json → Int
+  | [] => 0
+  | .int n :: xs => n + sumInts xs
+  | _ :: xs => sumInts xs
+
+/-- bodies of `_get_result` overrides (the shapes the harness generates; `comp outer inner` is an
+override in a subclass of a class that already overrides: `outer(super()._get_result())`) -/
+inductive Accessor
+  | raw                                           -- `return self._result` (the base class)
+  | wrapList                                      -- `[self._result]`
+  | wrapObj (key tagKey : String) (tag : Json)    -- `{key: self._result, tagKey: tag}`
+  | withField (key field : String)                -- `{key: self._result, field: self.<field>}`
+  | withDyn (key dyn : String)                    -- `{key: self._result, dyn: self.get(dyn)}`
+  | size                                          -- `len(r)` of a list / dict / str, else -1
+  | total                                         -- sum of the ints of a list, else 0
+  | first                                         -- `r[0]` of a non-empty list, else None
+  | orDefault (d : Json)                          -- `r if r is not None else d`
+  | comp (outer inner : Accessor)
+deriving Repr
+
+/-- the override applied to a value standing for `self._result` -/
+def Accessor.on (e : Inst) : Accessor → Json → Json
+  | .raw, r => r
+  | .wrapList, r => .arr [r]
+  | .wrapObj key tagKey tag, r => .obj (dset (dset [] key r) tagKey tag)
+  | .withField key field, r => .obj (dset (dset [] key r) field ((dget e.typed field).getD .null))
+  | .withDyn key dyn, r => .obj (dset (dset [] key r) dyn ((dget e.data dyn).getD .null))
+  | .size, .arr xs => .int xs.length
+  | .size, .obj kvs => .int kvs.length
+  | .size, .str s => .int s.length
+  | .size, _ => .int (-1)
+  | .total, .arr xs => .int (sumInts xs)
+  | .total, _ => .int 0
+  | .first, .arr (x :: _) => x
+  | .first, _ => .null
+  | .orDefault d, r => if r.isNull then d else r
+  | .comp outer inner, r => outer.on e (inner.on e r)
+
+/-- `event.result` of an instance of a class whose `_get_result` is `a` -/
+def publicResult (a : Accessor) (e : Inst) : Json := a.on e e.result
+
+/-- NOT the code: the `StopEvent` wrap serializer as it would be if it wrote what `event.result`
+reports instead of the raw payload (`C18_dump_accessor_value_refuted`: that does not round-trip) -/
+def dumpModelVia (a : Accessor) (e : Inst) : Dict :=
+  match e.cls.kind with
+  | .stop =>
+    let d := if e.data.isEmpty then e.typed else dset e.typed "_data" (.obj e.data)
+    if (publicResult a e).isNull then d else dset d "result" (publicResult a e)
+  | _ => dumpModel e
+
 /-! ## Path 1: `JsonSerializer.serialize_value` / `deserialize_value` -/
 
 /-- Python values the serializer walks: JSON leaves, lists, dicts, model instances -/
@@ -982,5 +1041,17 @@ def recSpecOf (c : String × String × List (String × String × String) × List
 def tickSpecs : List RecSpec := Gen.EventSerial.tickClasses.filterMap recSpecOf
 /-- the members of `StepFunctionResult` -/
 def resultSpecs : List RecSpec := Gen.EventSerial.resultClasses.filterMap recSpecOf
+
+/-! ### `event.result` of what the paths hand back -/
+
+/-- `.result` of the object `deserialize_value` returned (`none`: not a model instance) -/
+def pyPublic (a : Accessor) : PyVal → Option Json
+  | .model e => some (publicResult a e)
+  | _ => none
+
+/-- `.result` of the event in a top-level tick slot (`none`: the slot holds no event) -/
+def slotPublic (a : Accessor) : TVal → Option Json
+  | .s (.event e) => some (publicResult a e)
+  | _ => none
 
 end EventSerial
